@@ -20,6 +20,7 @@ import DosModel.Proofs.Handlers
 import DosModel.Proofs.HandlersDkg
 import DosModel.Proofs.HandlersNode
 import DosModel.Proofs.HandlersIso
+import DosModel.Proofs.HandlersChain
 
 namespace Dos.Props.C12
 open Dos Dos.Handlers
@@ -41,7 +42,7 @@ theorem guarded_sites_checked : guardedOK = true := by decide +kernel
 
 /-- how the sites are accounted for: (modelled — flag / cross-function flag / model branch —,
 safe by extracted guard (checked above), safe by prose argument: the trusted classifications) -/
-theorem classification_counts : classCounts = (87, 93, 84) := by decide +kernel
+theorem classification_counts : classCounts = (101, 138, 105) := by decide +kernel
 
 /-- the session layer has exactly three statement lists that close a reply channel — completion in
 `handlePeerMsg`, completion in `handleRequest`, the expiry sweep in `Loop` —; their clean-up operations
@@ -273,6 +274,88 @@ example : ∃ i, (connStep Cfg.current (connRun Cfg.current {} [.dial 2 2 true, 
 example : (connRun Cfg.all {} [.req 2, .disc 2, .req 2, .req 3]).2 = [.ok "dialled", .ok "removed", .err "dup", .ok "dialled"] := by decide
 -- after Leave nothing is handled (and nothing crashes)
 example : (connRun Cfg.all {} [.req 2, .leave, .disc 2, .hangup 2, .req 3]).2 = [.ok "dialled", .ok "left", .dropped, .dropped, .dropped] := by decide
+
+/-! ### the chain-event half: no field of an on-chain event makes the node panic -/
+
+/-- the tie of the event path (regenerated facts `eventFlow`, `loopSubs`, `loopCases`): onchainLoop subscribes
+to exactly the seven expected event kinds, each has its table entry in eth_subscribe.go, the payload that
+entry builds copies every field of the contract binding verbatim (so the non-nil integers of the ABI
+decoder stay non-nil), the `LogCommon` wrapper carries the payload under `log` and the binding's Removed
+flag, only `&OnchainError` values are sent as errors, and the loop's type switch has a case for each of
+the seven payload types and for nothing else. A dropped field, a new subscription without entry, an
+unchecked assertion instead of the switch breaks this (and turns `Cfg.current.evFlow` off: the model then
+predicts the nil dereference). -/
+theorem event_flow_matches : flowOK = true := by decide +kernel
+
+/-- what the translation delivers has no nil field, whatever the values (any magnitude, any id list) -/
+theorem translated_events_wellformed (ev : RawEv) (p : Payload) (h : translate Cfg.current ev = some p) : p.wf = true := by
+  rw [guards_present] at h; exact translate_wf ev p h
+example : translate Cfg.current (.userRandom 0 (2 ^ 256 - 1) 7 5) = some (.userRandom (some 0) (some (2 ^ 256 - 1)) (some 7) (some 5)) := by
+  rw [guards_present]; decide
+
+/-- **the chain side is total**: for this node's id, any group table, any number of endpoints and EVERY
+sequence of inputs the chain side can produce — contract logs with fields of any magnitude (request ids,
+seeds, block numbers 0 … 2²⁵⁶−1), NodeId lists of any length (empty, one, duplicates, with or without this
+node), group ids known / unknown / in formation, Removed logs, re-deliveries, events nobody subscribed to,
+values that are not logs, plain and `OnchainError` error values, completions of key generations, and
+(doubles) directly injected payloads without nil fields —: `firstEvent`, onchainLoop's dispatch,
+`handleGrouping` → `pdkg.Grouping`, `isMember` → `GetShareSecurity`, `groupInfo`, `handleQuery` →
+`choseSubmitter`, `handleCR`, `DisconnectWs` reach no panic site and the loop stays alive. -/
+theorem chain_events_total (me nWs : Nat) (groups : List GroupRec) (visited : List Nat) (ins : List ChainIn)
+    (h : ∀ i ∈ ins, i.fromChain nWs = true) :
+    (chainRun Cfg.current me { groups := groups, nWs := nWs, visited := visited } ins).1.alive = true ∧
+    ∀ o ∈ (chainRun Cfg.current me { groups := groups, nWs := nWs, visited := visited } ins).2, o.isPanic = false := by
+  rw [guards_present]
+  have := chainRun_total me ins { groups := groups, nWs := nWs, visited := visited } ⟨rfl, rfl⟩ h
+  exact ⟨this.1.1, this.2⟩
+example : (chainRun Cfg.all 1 { groups := [⟨some 5, 3, true⟩, ⟨some 6, 0, true⟩] }
+    [.log (.url 9 (2 ^ 256 - 1) 5) false 0, .log (.url 9 (2 ^ 256 - 1) 5) false 0, .log (.updateRandom 0 6) false 1, .log (.grouping 7 []) false 2,
+     .log (.grouping 7 [1]) false 3, .log (.grouping 7 [1, 1, 2]) false 4, .log (.keyAccepted 7) false 5, .log (.startCR 1 0 0 (2 ^ 64)) true 6,
+     .log (.startCR 1 0 0 (2 ^ 64)) false 7, .junk, .log .unsubscribed false 8, .errv (.onchain 0), .errv .plain, .keygenDone (some 7), .log (.dissolve 7) false 9]).2
+    = [.ok "query url", .dropped, .err "nogroup", .dropped, .ok "grouping 1", .err "dupgroup", .dropped, .dropped, .ok "cr", .dropped, .dropped,
+       .ok "disconnect", .ok "logged", .ok "", .ok "dissolved"] := by decide
+-- negation witnesses (the code has no nil checks on event fields; confirmed on the real handlers by the nil-field `chain` cases):
+example : (chainRun Cfg.all 1 { groups := [⟨some 5, 3, true⟩] } [.direct (.url none (some 1) (some 5))]).2 = [.panic "dosnode.DosNode.handleQuery|deref|requestID.Bytes"] := by decide
+example : (chainRun Cfg.all 1 {} [.direct (.updateRandom none (some 9)), .direct (.startCR (some 1) (some 1) (some 1) (some 1))]).2
+    = [.dropped, .panic "dosnode.DosNode.handleCR|deref|randSeed.Cmp(big.NewInt(1))"] := by decide
+-- … which is what a translation that loses a field would deliver (flag `evFlow` off)
+example : ((chainRun { Cfg.all with evFlow := false } 1 { groups := [⟨none, 3, true⟩] } [.log (.url 9 8 5) false 0]).2.any Out.isPanic) = true := by decide
+-- a group whose key generation is still running, without the `dks != nil` test of GetShareSecurity
+example : (chainRun { Cfg.all with secNil := false } 1 {} [.log (.grouping 7 [1, 2]) false 0, .log (.updateRandom 3 7) false 1]).2
+    = [.ok "grouping 2", .panic "dkg.pdkg.GetShareSecurity|deref|dks.Share"] := by decide
+example : (chainRun { Cfg.all with feCast := false } 1 {} [.junk]).2 = [.panic "onchain.firstEvent|typeassert|event.(*LogCommon)"] := by decide
+
+/-- **the loop keeps serving the next event**: after any such history, a request event for a group whose
+key the node holds (with at least one member id) still gets its submitter and its pipeline … -/
+theorem chain_events_still_serve_query (me nWs : Nat) (groups : List GroupRec) (ins : List ChainIn)
+    (h : ∀ i ∈ ins, i.fromChain nWs = true) (g q r ident : Nat) (rec : GroupRec)
+    (hg : findGroup (some g) (chainRun Cfg.current me { groups := groups, nWs := nWs } ins).1.groups = some rec)
+    (hsec : rec.hasSec = true) (hn : rec.nids ≠ 0)
+    (hfresh : (chainRun Cfg.current me { groups := groups, nWs := nWs } ins).1.visited.contains ident = false) :
+    (chainStep Cfg.current me (chainRun Cfg.current me { groups := groups, nWs := nWs } ins).1 (.log (.url q r g) false ident)).2 = .ok "query url" := by
+  rw [guards_present] at hg hfresh ⊢
+  exact serves_query me _ (chainRun_total me ins { groups := groups, nWs := nWs } ⟨rfl, rfl⟩ h).1 g q r ident rec hg hsec hn hfresh
+example : (chainStep Cfg.current 1 (chainRun Cfg.current 1 { groups := [⟨some 5, 3, true⟩] } [.direct (.url (some 1) (some 2) (some 9)), .junk, .errv .plain]).1 (.log (.url 4 0 5) false 77)).2 = .ok "query url" :=
+  chain_events_still_serve_query 1 1 _ _ (by decide) 5 4 0 77 ⟨some 5, 3, true⟩ (by rw [guards_present]; decide) rfl (by decide) (by rw [guards_present]; decide)
+
+/-- … and a grouping event that names this node and a group id the node does not know yet still starts a key generation -/
+theorem chain_events_still_serve_grouping (me nWs : Nat) (groups : List GroupRec) (ins : List ChainIn)
+    (h : ∀ i ∈ ins, i.fromChain nWs = true) (g ident : Nat) (ids : List Nat) (hme : ids.contains me = true)
+    (hnew : findGroup (some g) (chainRun Cfg.current me { groups := groups, nWs := nWs } ins).1.groups = none)
+    (hfresh : (chainRun Cfg.current me { groups := groups, nWs := nWs } ins).1.visited.contains ident = false) :
+    (chainStep Cfg.current me (chainRun Cfg.current me { groups := groups, nWs := nWs } ins).1 (.log (.grouping g ids) false ident)).2
+      = .ok s!"grouping {ids.length}" := by
+  rw [guards_present] at hnew hfresh ⊢
+  exact serves_grouping me _ (chainRun_total me ins { groups := groups, nWs := nWs } ⟨rfl, rfl⟩ h).1 g ident ids hme hnew hfresh
+example : (chainStep Cfg.current 1 (chainRun Cfg.current 1 {} [.log (.grouping 3 [1, 2]) false 0, .log (.dissolve 3) false 1]).1 (.log (.grouping 4 [2, 1, 2]) false 5)).2 = .ok "grouping 3" :=
+  chain_events_still_serve_grouping 1 1 _ _ (by decide) 4 5 [2, 1, 2] (by decide) (by rw [guards_present]; decide) (by rw [guards_present]; decide)
+
+/-- **getBootIps**: the bootstrap URL of the bridge contract (parsable or not), the fetch (failing or not), a document with any number of separators -/
+theorem getBootIps_total (urlOK fetched : Bool) (commas : Nat) : (getBootIps Cfg.current urlOK fetched commas).isPanic = false := by
+  rw [guards_present]; exact Handlers.getBootIps_total urlOK fetched commas
+example : getBootIps Cfg.all false false 0 = .ok "0" := by decide
+-- before d508404: a URL that does not parse
+example : (getBootIps { Cfg.all with bootReq := false } false false 0).isPanic = true := by decide
 
 theorem messageDispatch_total (f : Feed) : (messageDispatch Cfg.current f).isPanic = false := by
   rw [guards_present]; exact Handlers.messageDispatch_total f
